@@ -78,7 +78,7 @@ def concretise(script, final=("quiesce", "stop")):
     return acts
 
 
-LANE_OUT = (None, 16, 48, None, 96)
+LANE_OUT = (None, 16, 8, 48, None, 96, 8)
 
 
 def run_scripts(wd, scripts, cfg, tag="e2e", final=("quiesce", "stop"), vary=True):
